@@ -43,7 +43,9 @@ def _normalize_title_quotes(title: str) -> str:
     """
     Normalize title quotes.
     """
-    escaped = title.strip('"').replace('"', '\\"')
+    # The parser hands over the title without its delimiters: every quote character in it
+    # belongs to the title and is escaped, none is stripped.
+    escaped = title.replace('"', '\\"')
     return f'"{escaped}"'
 
 
